@@ -467,6 +467,16 @@ def rule_separator_flush(rep: Report, bp) -> None:
 		r.skip('break_separator', bp.where, 'BlockParser.break_separator vanished')
 		return
 	text_p, delim_p = [p_ for p_ in f.params() if p_ not in ('cls', 'self')][:2]
+	# helpers that only record a piece (`cls._push_block(blocks, text, begin, index)`) are read where they are called
+	from vlib.match import merged_function
+	import types
+	f_orig = f
+	try:
+		merged = merged_function(f, stmts=True)
+		if any(isinstance(n, (ast.While, ast.For)) for n in merged.body):
+			f = types.SimpleNamespace(node=merged, where=f_orig.where, params=f_orig.params, qualname=f_orig.qualname)
+	except RecursionError:
+		pass
 	loop = next((n for n in f.node.body if isinstance(n, (ast.While, ast.For))), None)
 	if loop is None:
 		r.skip('break_separator', f.where, 'break_separator has no scanning loop at its top level')
@@ -498,6 +508,20 @@ def rule_separator_flush(rep: Report, bp) -> None:
 				out[a] = out.get(a, 0) + k
 		return {a: k for a, k in out.items() if k}, const
 
+	# a piece is recorded at EVERY cut, the empty ones included (`,a` -> ['', 'a'], `a,,b` -> ['a', '', 'b']): the number of pieces is the number of cuts
+	# plus one, which is what lets positional readers (decorator arguments by index) and the rejoin law count on them
+	for c_ in cuts:
+		sl = next(x for x in ast.walk(c_) if isinstance(x, ast.Subscript) and unparse(x.value) == text_p and isinstance(x.slice, ast.Slice))
+		lo_n = {x.id for x in ast.walk(sl.slice.lower) if isinstance(x, ast.Name)} if sl.slice.lower is not None else set()
+		hi_n = {x.id for x in ast.walk(sl.slice.upper) if isinstance(x, ast.Name)} if sl.slice.upper is not None else set()
+		dropped = None
+		for a, p_ in atoms(f.node, c_):
+			names_a = {x.id for x in ast.walk(a) if isinstance(x, ast.Name)}
+			if isinstance(a, ast.Compare) and lo_n and hi_n and lo_n <= names_a and hi_n <= names_a and names_a <= (lo_n | hi_n):
+				dropped = a
+			elif unparse(a) == unparse(sl) or (isinstance(a, ast.Call) and isinstance(a.func, ast.Attribute) and unparse(a.func.value) == unparse(sl) and a.func.attr in ('strip', 'lstrip', 'rstrip')):
+				dropped = a
+		r.check(dropped is None, f'cut-records-empty-pieces:{unparse(sl)[:30]}', (BLOCK, c_.lineno), f'the piece `{unparse(sl)}` is recorded at a cut only under `{unparse(dropped) if dropped is not None else ""}`: empty pieces vanish — `,a` gives ["a"] and `a,,b` gives ["a", "b"], the same pieces as for `a` / `a,b`, so the pieces no longer rejoin to the fragment and positional arguments behind an empty one move down', unparse(c_)[:120])
 	unconditional = any(st is c_ or (isinstance(st, ast.Expr) and st.value is c_) for st, c_ in flushes)
 	if unconditional:
 		r.ok('final-piece', f.where, message='the piece after the last cut is always recorded')
